@@ -9,9 +9,15 @@
    [wig_ok 0 len vals]: stored bigWig values lie in [0, len), are non-empty, disjoint and in start order;
    [bed_ok 0 len ents]: bigBed entries lie in [0, len], are non-empty, starts do not decrease (any overlap).
    [touch]: whether the bigBed reader also hands over entries that merely touch the fetched range (it does
-   when their block is read at all) -- the theorems hold either way. *)
+   when their block is read at all) -- the theorems hold either way.
+   Zoom mode (`exact = False`): [values_wig_zoom] / [values_bed_zoom] are the same wrappers with to_array_zoom /
+   to_entry_array_zoom (after the repair ce28381) in the middle, on the records of the chosen zoom level;
+   [zoom_ok 0 len recs]: the records lie in [0, len), are non-empty, disjoint and in start order (what C07/C08
+   prove of a stored level), have at least one covered base and a mean sum/bases_covered that is exact in the
+   model's unit; [zoom_cell] / [zoom_stat] / [zov] say what a bin reports.  [touch] as above (get_zoom_interval
+   hands over touching records like the bigBed reader). *)
 From BT Require Import Base.Util Model.PyArrays Proofs.PyArraysGeom Proofs.PyArraysCover Proofs.PyArraysBed
-  Proofs.PyArraysValues.
+  Proofs.PyArraysValues Proofs.PyArraysZoom Proofs.PyArraysZoomValues.
 Local Open Scope Z_scope.
 
 (* The bin the routines pick for a base is the one whose whole-number span holds it, for every width. *)
@@ -78,6 +84,87 @@ Theorem C20_oob : forall touch len vals ents s e st missing oob,
 Proof. exact oob_thm. Qed.
 Print Assumptions C20_oob.
 
+(* ---- zoom mode (`exact = False`) *)
+
+(* Bins from a zoom level, EVERY bin count 1..e-s: no panic; the cell of bin k (same spans as in exact mode) is
+   oob when the span holds a base outside [0, len); `missing` when no record overlaps the span; else, over the
+   records r overlapping it, with ov(r) = number of bases of r inside the span:
+     mean = sum ov(r) * mean(r) / sum ov(r)     (mean(r) = sum / bases_covered; to_entry_array_zoom: max(mean(r), 0))
+     min  = the smallest min_val,   max = the largest max_val.
+   In particular the cell does not depend on `missing` where there is data (D11g). *)
+Theorem C20_zoom_bins : forall touch len recs s e bins st missing oob,
+  zoom_ok 0 len recs -> s < e -> 0 < bins <= e - s ->
+  values_wig_zoom touch len recs s e bins st missing oob
+    = Ok (map (fun k => zoom_cell zmean recs len st missing oob
+                          (s + bin_edge k (e - s) bins) (s + bin_edge (k + 1) (e - s) bins))
+              (seqZ 0 (Z.to_nat bins)))
+  /\ values_bed_zoom touch len recs s e bins st missing oob
+    = Ok (map (fun k => zoom_cell zmean0 recs len st missing oob
+                          (s + bin_edge k (e - s) bins) (s + bin_edge (k + 1) (e - s) bins))
+              (seqZ 0 (Z.to_nat bins))).
+Proof. exact zoom_bins_thm. Qed.
+Print Assumptions C20_zoom_bins.
+
+(* The same said differently: zoom mode is exact mode applied to the step function that gives every base of a
+   record the record's mean (resp. min_val, max_val) -- cell for cell the answer of the exact bigWig routine on
+   those values. *)
+Theorem C20_zoom_step_function : forall touch len recs s e bins st missing oob,
+  zoom_ok 0 len recs -> s < e -> 0 < bins <= e - s ->
+  values_wig_zoom touch len recs s e bins st missing oob
+    = values_wig len (map (zwv false st) recs) s e (Some bins) st missing oob
+  /\ values_bed_zoom touch len recs s e bins st missing oob
+    = values_wig len (map (zwv true st) recs) s e (Some bins) st missing oob.
+Proof. exact zoom_step_thm. Qed.
+Print Assumptions C20_zoom_step_function.
+
+(* `missing` where there is no data: a bin inside the chromosome that no record overlaps. *)
+Theorem C20_zoom_missing : forall mval recs len st missing oob lo hi, 0 <= lo -> hi <= len ->
+  (forall z, In z recs -> zov lo hi z <= 0) ->
+  zoom_cell mval recs len st missing oob lo hi = out_of_fl missing.
+Proof. exact zoom_missing_thm. Qed.
+Print Assumptions C20_zoom_missing.
+
+(* Never NaN (nor an infinity) for finite missing / oob: every cell is a number n/d with d > 0. *)
+Theorem C20_zoom_nan_free : forall touch len recs s e bins st m o,
+  zoom_ok 0 len recs -> s < e -> 0 < bins <= e - s ->
+  exists cw cb, values_wig_zoom touch len recs s e bins st (FV m) (FV o) = Ok cw
+             /\ values_bed_zoom touch len recs s e bins st (FV m) (FV o) = Ok cb
+             /\ Forall (fun c => exists n d, c = OQ n d /\ 0 < d) cw
+             /\ Forall (fun c => exists n d, c = OQ n d /\ 0 < d) cb.
+Proof. exact zoom_nan_free_thm. Qed.
+Print Assumptions C20_zoom_nan_free.
+
+(* Every bin whose span holds a base outside [0, len) reads oob. *)
+Theorem C20_zoom_oob : forall touch len recs s e bins st missing oob,
+  zoom_ok 0 len recs -> s < e -> 0 < bins <= e - s ->
+  exists cw cb, values_wig_zoom touch len recs s e bins st missing oob = Ok cw
+             /\ values_bed_zoom touch len recs s e bins st missing oob = Ok cb
+             /\ forall k, 0 <= k < bins ->
+                  s + bin_edge k (e - s) bins < 0 \/ len < s + bin_edge (k + 1) (e - s) bins ->
+                  nth (Z.to_nat k) cw ONaN = out_of_fl oob /\ nth (Z.to_nat k) cb ONaN = out_of_fl oob.
+Proof. exact zoom_oob_thm. Qed.
+Print Assumptions C20_zoom_oob.
+
+(* ---- the wrappers' own arithmetic (the text make_glue cuts out of lib.rs is this, compiled) *)
+
+(* The fetch clamp `(start.max(0), end.min(length).max(0))`: both ends fit a u32 and the fetched range is exactly
+   the part of [s, e) inside the chromosome (empty when the range lies wholly outside). *)
+Theorem C20_fetch_clamp : forall s e len p,
+  let '(fs, fe) := clamp s e len in
+  0 <= fs /\ 0 <= fe /\ (fs <= p < fe <-> (s <= p < e /\ 0 <= p < len)).
+Proof. exact clamp_range. Qed.
+Print Assumptions C20_fetch_clamp.
+
+(* The out-of-bounds block on an array of nbins cells (any content): no index out of range, and exactly the
+   cells of the bins whose span holds a base outside [0, len) are overwritten with oob. *)
+Theorem C20_oob_layout : forall s e len nbins oob arr, s < e -> 0 < nbins <= e - s -> length arr = Z.to_nat nbins ->
+  oob_fill s e len nbins oob arr
+  = Ok (map (fun k => if (s + bin_edge k (e - s) nbins <? 0) || (len <? s + bin_edge (k + 1) (e - s) nbins)
+                      then out_of_fl oob else nth (Z.to_nat k) arr ONaN)
+            (seqZ 0 (Z.to_nat nbins))).
+Proof. exact oob_layout. Qed.
+Print Assumptions C20_oob_layout.
+
 (* Non-vacuity: concrete layouts meet the hypotheses; a non-integral width (5 bases in 3 bins, edges 0 1 3 5),
    a range sticking out on both sides, overlapping entries. *)
 Definition ex_vals : list wval :=
@@ -104,3 +191,25 @@ Proof. split; vm_compute; reflexivity. Qed.
 Example C20_example_d11b :
   values_wig 3 [ {| w_start := 1; w_end := 2; w_val := 8 |} ] 0 3 (Some 2) Mean (FV 0) FNaN = Ok [OQ 0 1; OQ 8 1].
 Proof. vm_compute. reflexivity. Qed.
+(* a zoom level: record [0,4) mean 2 (min 1, max 3), record [5,8) with 2 covered bases, mean 0.5 (min 0, max 1) *)
+Definition ex_recs : list zrec :=
+  [ {| z_start := 0; z_end := 4; z_bases := 4; z_min := 8; z_max := 24; z_sum := 64 |};
+    {| z_start := 5; z_end := 8; z_bases := 2; z_min := 0; z_max := 8; z_sum := 8 |} ].
+Example C20_example_zoom_hyps : zoom_ok 0 8 ex_recs.
+Proof. unfold ex_recs. cbn [zoom_ok]. repeat split; first [reflexivity | cbn; lia]. Qed.
+(* 8 bases in 3 bins (edges 0 2 5 8), missing 2.5: means 2, 2, 0.5 -- the missing value does not enter *)
+Example C20_example_zoom :
+  values_wig_zoom true 8 ex_recs 0 8 3 Mean (FV 20) FNaN = Ok [OQ 32 2; OQ 32 2; OQ 12 3]
+  /\ values_bed_zoom true 8 ex_recs 0 8 3 Mean (FV 20) FNaN = Ok [OQ 32 2; OQ 32 2; OQ 12 3]
+  /\ values_bed_zoom false 8 ex_recs (-1) 9 4 Min (FV 20) (FV 56) = Ok [OQ 56 1; OQ 8 1; OQ 0 1; OQ 56 1]
+  /\ values_wig_zoom false 8 ex_recs 3 7 4 Max (FV 20) (FV 56) = Ok [OQ 24 1; OQ 20 1; OQ 8 1; OQ 8 1].
+Proof. repeat split; vm_compute; reflexivity. Qed.
+(* the repaired D11g witnesses: one record [0,4) with mean = min = max = 1 in one bin: mean 1 with missing 2.5
+   (was 3.5), min 1 with the default missing 0 (was 0) *)
+Example C20_example_d11g :
+  let r := [ {| z_start := 0; z_end := 4; z_bases := 4; z_min := 8; z_max := 8; z_sum := 32 |} ] in
+  values_bed_zoom false 4 r 0 4 1 Mean (FV 20) FNaN = Ok [OQ 32 4]
+  /\ values_bed_zoom false 4 r 0 4 1 Min (FV 0) FNaN = Ok [OQ 8 1].
+Proof. split; vm_compute; reflexivity. Qed.
+Example C20_example_clamp : clamp (-3) 20 8 = (0, 8) /\ clamp (-5) (-2) 8 = (0, 0) /\ clamp 9 12 8 = (9, 8).
+Proof. repeat split. Qed.
